@@ -11,9 +11,11 @@ PROPERTY = "C12"
 LEVEL = "exploration"
 EXHAUSTIVE = {"quick": True, "thorough": True}
 RULE = (
-    "operation alphabet (20): register(event in {a,b}, priority in {-1,0,5}, stops or not) = 12, dispatch(event in {a,b,c}) "
+    "operation alphabet (25): register(event in {a,b}, priority in {-1,0,5}, stops or not) = 12, dispatch(event in {a,b,c}) "
     "= 3, register a listener that itself registers another listener when called (event a/b) = 2, query(get_listeners(a), "
-    "get_listeners(b), get_listeners()) = 3 (queries fill the dispatcher's sort cache, so they are part of the history). "
+    "get_listeners(b), get_listeners()) = 3 (queries fill the dispatcher's sort cache, so they are part of the history), "
+    "dispatch without an event object (a/b) = 2, register a listener that raises (its exception ends the dispatch and reaches the caller; the dispatcher must "
+    "work as before afterwards) = 1, register a bound method of an object nobody else refers to (plain / high priority and stopping) = 2. "
     "Every sequence up to length L is run from scratch on a new EventDispatcher: each dispatch's invocation log is compared "
     "with the model, and after the last step every query (has_listeners per event and overall, get_listeners per event and "
     "overall, get_listener_priority of every listener for every event) is compared. Random sequences of length 6-40 on top. "
@@ -21,8 +23,8 @@ RULE = (
     "dispatch/query of that event or a stopping listener; distinct by operation tuple."
 )
 BOUND = {
-    "quick": "all 168420 sequences of length <= 4 over 20 operations; 3000 random sequences of length 6-40",
-    "thorough": "all 3368420 sequences of length <= 5 over 20 operations; 400000 sampled of length 6; 100000 random of length 7-40",
+    "quick": "all 406900 sequences of length <= 4 over 25 operations; 3000 random sequences of length 6-40",
+    "thorough": "all 10172525 sequences of length <= 5 over 25 operations; 400000 sampled of length 6; 100000 random of length 7-40",
 }
 ASSUMPTIONS = [
     "whether a listener registered during a dispatch also joins the dispatch in progress is not stated and not asserted; it must take part in the next one",
@@ -39,10 +41,17 @@ for ev in EVENTS:
 for ev in ("a", "b"):
     OPS.append(("reg-nested", ev))
 OPS += [("query", "a"), ("query", "b"), ("query", None)]
+# dispatch without an event object (the dispatcher makes one), a listener that raises, listeners that are bound methods
+# of objects nobody else refers to
+OPS += [("dispatch-default", "a"), ("dispatch-default", "b"), ("reg-raises", "a"), ("reg-method", "a", 0, False), ("reg-method", "a", 5, True)]
 
 
 class DispatchBudgetExceeded(BaseException):
     """Logical termination monitor: one dispatch called far more listeners than are registered."""
+
+
+class ListenerFailed(Exception):
+    """Raised by the 'raises' listeners: it ends the dispatch and reaches the caller."""
 
 
 class Run(object):
@@ -55,8 +64,9 @@ class Run(object):
         self.seq = 0
         self.bad_args = []
         self.budget = 10 ** 9
+        self.method_ids = set()
 
-    def make(self, lid, stops, nested_event=None):
+    def make(self, lid, stops, nested_event=None, raises=False, method=False):
         run = self
 
         def listener(event, event_name, dispatcher):
@@ -67,16 +77,26 @@ class Run(object):
                 run.bad_args.append((lid, event_name))
             if nested_event is not None:
                 run.register(nested_event, 0, False)
+            if raises:
+                raise ListenerFailed(lid)
             if stops:
                 event.stop_propagation()
 
+        if method:
+            class Subscriber(object):
+                def on_event(self, event, event_name, dispatcher):
+                    return listener(event, event_name, dispatcher)
+
+            return Subscriber().on_event  # the only reference to the subscriber is the bound method itself
         return listener
 
-    def register(self, ev, pr, stops, nested=None):
+    def register(self, ev, pr, stops, nested=None, raises=False, method=False):
         lid = len(self.model)
-        fn = self.make(lid, stops, nested)
-        self.objs[lid] = fn
-        self.model.append(dict(id=lid, event=ev, priority=pr, seq=self.seq, stops=stops))
+        fn = self.make(lid, stops, nested, raises, method)
+        self.objs[lid] = fn if not method else None  # bound methods are compared by equality, and not kept alive here
+        if method:
+            self.method_ids.add(lid)
+        self.model.append(dict(id=lid, event=ev, priority=pr, seq=self.seq, stops=stops, raises=raises))
         self.seq += 1
         self.d.add_listener(ev, fn, pr)
         return lid
@@ -90,9 +110,13 @@ class Run(object):
             if m["id"] >= upto:
                 continue
             out.append(m["id"])
-            if m["stops"]:
+            if m["stops"] or m.get("raises"):
                 break
         return out
+
+    def expect_failure(self, ev, upto):
+        calls = self.expected_calls(ev, upto)
+        return bool(calls) and bool(self.model[calls[-1]].get("raises"))
 
 
 def execute(sh, Dispatcher, Event, ops, record):
@@ -104,6 +128,10 @@ def execute(sh, Dispatcher, Event, ops, record):
             r.register(op[1], op[2], op[3])
         elif op[0] == "reg-nested":
             r.register(op[1], 0, False, nested=op[1])
+        elif op[0] == "reg-raises":
+            r.register(op[1], 0, False, raises=True)
+        elif op[0] == "reg-method":
+            r.register(op[1], op[2], op[3], method=True)
         elif op[0] == "query":
             try:
                 r.d.get_listeners(op[1])
@@ -111,7 +139,7 @@ def execute(sh, Dispatcher, Event, ops, record):
                 sh.violate("query-raises", record, "get_listeners(%r) raised %r at step %d" % (op[1], e, n))
                 return interesting
             touched.update(EVENTS if op[1] is None else [op[1]])
-        else:
+        elif op[0] in ("dispatch", "dispatch-default"):
             ev = op[1]
             before = len(r.model)
             want = r.expected_calls(ev, before)
@@ -120,9 +148,13 @@ def execute(sh, Dispatcher, Event, ops, record):
                 interesting = True
             r.log = []
             r.budget = 4 * before + 20  # listeners registered when the dispatch starts
-            event = Event()
+            event = Event() if op[0] == "dispatch" else None
+            failed = False
             try:
-                ret = r.d.dispatch(ev, event)
+                ret = r.d.dispatch(ev, event) if event is not None else r.d.dispatch(ev)
+            except ListenerFailed:
+                failed = True
+                ret = event
             except DispatchBudgetExceeded:
                 sh.violate("dispatch-each-once", record, "step %d dispatch(%r) kept calling listeners: %d calls with %d listeners registered (first calls %r)" % (
                     n, ev, len(r.log), len(r.model), r.log[:8]))
@@ -141,8 +173,14 @@ def execute(sh, Dispatcher, Event, ops, record):
             if any(r.model[l]["event"] != ev for l in late):
                 sh.violate("dispatch-foreign", record, "step %d dispatch(%r) called listeners of another event: %r" % (n, ev, late))
                 return interesting
-            if ret is not event:
+            if failed != r.expect_failure(ev, before):
+                sh.violate("dispatch-raises", record, "step %d dispatch(%r): the listener's exception %s the caller, the model says it %s" % (
+                    n, ev, "reached" if failed else "did not reach", "does" if not failed else "does not"))
+                return interesting
+            if event is not None and ret is not event:
                 sh.violate("dispatch-return", record, "dispatch did not return the event it was given")
+            if event is None and not failed and not isinstance(ret, Event):
+                sh.violate("dispatch-return", record, "dispatch without an event returned %r" % (ret,))
             if r.bad_args:
                 sh.violate("dispatch-args", record, "listener called with wrong arguments: %r" % (r.bad_args[:2],))
             touched.add(ev)
@@ -151,7 +189,7 @@ def execute(sh, Dispatcher, Event, ops, record):
         for ev in EVENTS:
             want = [r.objs[m["id"]] for m in r.ordered(ev)]
             got = list(r.d.get_listeners(ev))
-            if len(got) != len(want) or any(x is not y for x, y in zip(got, want)):
+            if len(got) != len(want) or any(y is not None and x is not y for x, y in zip(got, want)):
                 sh.violate("query-get-listeners", record, "get_listeners(%r) has %d entries in order %r, expected ids %r" % (
                     ev, len(got), [k for g in got for k, v in r.objs.items() if v is g], [m["id"] for m in r.ordered(ev)]))
                 return interesting
@@ -163,10 +201,12 @@ def execute(sh, Dispatcher, Event, ops, record):
         for ev in EVENTS:
             want = [r.objs[m["id"]] for m in r.ordered(ev)]
             got = list(allmap.get(ev, []))
-            if len(got) != len(want) or any(x is not y for x, y in zip(got, want)):
+            if len(got) != len(want) or any(y is not None and x is not y for x, y in zip(got, want)):
                 sh.violate("query-get-listeners", record, "get_listeners()[%r] disagrees with the model" % ev)
                 break
         for m in r.model:
+            if r.objs[m["id"]] is None:
+                continue
             for ev in EVENTS:
                 p = r.d.get_listener_priority(ev, r.objs[m["id"]])
                 want = m["priority"] if ev == m["event"] else None
@@ -181,8 +221,8 @@ def execute(sh, Dispatcher, Event, ops, record):
 
 def plan(tier, seed):
     if tier == "quick":
-        return [{"part": "enum", "maxlen": 4, "first": i} for i in range(0, 20, 3)] + [{"part": "enum", "maxlen": 0}, {"part": "random", "n": 3000, "lo": 6, "hi": 40}]
-    specs = [{"part": "enum", "maxlen": 5, "first": i, "step": 1} for i in range(20)] + [{"part": "enum", "maxlen": 0}]
+        return [{"part": "enum", "maxlen": 4, "first": i, "step": 2} for i in range(0, len(OPS), 2)] + [{"part": "enum", "maxlen": 0}, {"part": "random", "n": 3000, "lo": 6, "hi": 40}]
+    specs = [{"part": "enum", "maxlen": 5, "first": i, "step": 1} for i in range(len(OPS))] + [{"part": "enum", "maxlen": 0}]
     specs += [{"part": "random", "n": 50000, "lo": 6, "hi": 6} for _ in range(8)]
     specs += [{"part": "random", "n": 25000, "lo": 7, "hi": 40} for _ in range(4)]
     return specs
